@@ -24,7 +24,7 @@ EXPLANATION = (
     "good as every candidate of its sub-range, passes the running value as pruning limit, and in hidden-chain mode hands the "
     "callee exactly the chain suffix; the chain tables themselves (signed_edges_as_vector, hidden_edges_per_edge) are built "
     "correctly by find_less_than_vertices (K8a).  Schedule independence then follows by induction over the split tree (paper "
-    "argument).  BOUNDED by CBMC (csd<=4, thorough 5): the composed main loop of mcb_sva_signed_tbb - concurrent "
+    "argument).  PROVED(csd<=8, thorough 10; loop contracts with quantified invariants): the composed main loop of mcb_sva_signed_tbb - concurrent "
     "initialisation in ANY push order, swap, parallel_for update, output - with find() replaced by its contract emits csd "
     "cycles with unit lower-triangular witness incidence (independent) and returns the sum of the reported weights (K16).  "
     "BOUNDED stand-in: all six entry points compiled UNCHANGED "
@@ -39,7 +39,7 @@ EXPLANATION = (
 def run(rep):
     specs = k07_reducers.units(tier()) + k04_update.units(tier(), which=("K5",))
     specs += [u for u in k08_bodies.units(tier()) if "mpi" not in u.get("unit", "")]
-    specs += [u for u in k16_mainloop.units(tier()) if u.get("unit", "").endswith("_tbb")]
+    specs += [u for u in k16_mainloop.units(tier()) if "signed_tbb" in u.get("unit", "")]
     engine.run_units(rep, specs)
     bins = native.build_many([
         dict(name="e3_tbb", incfirst=(os.path.join(VERIF, "stubs/tbb_contract"),), libs=("-lboost_timer",)),
